@@ -60,11 +60,14 @@ class PathStates:
                 if dv.op == "select" and depth < 6:
                     return flaglike(dv.ops[1], depth + 1) and flaglike(dv.ops[2], depth + 1)
                 return False
+            # a phi is carried when at least one incoming is flag-like (a status merged from several places: `ok = (p != NULL)` on one
+            # path, `ok = helper()` on another); incomings that are not flag-like leave the carried value unknown on their path, which only
+            # means that nothing is pruned there.  Integer phis only: pointers and wide counters are not flags.
             changed = True
             while changed:
                 changed = False
                 for pid, ph in list(cand.items()):
-                    if not all(flaglike(v) for v, _ in ph.incoming):
+                    if ph.ty.endswith("*") or not any(flaglike(v) for v, _ in ph.incoming):
                         del cand[pid]
                         changed = True
             self.flag_phis = cand
@@ -102,6 +105,8 @@ class PathStates:
             return ("c", env[sv[1]])
         if sv[1] in benv:
             t = benv[sv[1]]
+            if isinstance(t, tuple) and t[0] == "val":
+                return ("val", ("v", t[1]))
             return ("t", t[1], True) if isinstance(t, tuple) else ("t", t, False)
         if sv[1] in self.flag_phis:
             return None                 # a flag phi whose value is not known on this path
@@ -135,7 +140,23 @@ class PathStates:
             return ("t", d.id, False)
         if d.ty == "i1":
             return ("t", d.id, False)
+        if d.op == "call" and not d.ty.endswith("*") and self._only_widened(v):
+            # the status returned by a callee, merged with tests into one flag: the flag then *is* that value, and a later test of
+            # the flag is a test of the value
+            return ("val", ("v", d.id))
         return None
+
+    def _only_widened(self, v):
+        """v reaches its definition through zext / sext / bitcast only (so `v != 0` is `definition != 0`)"""
+        for _ in range(6):
+            d = self.fn.defn(v)
+            if d is None or d.is_param:
+                return True
+            if d.op in ("zext", "sext", "bitcast"):
+                v = d.ops[0]
+                continue
+            return d.op != "trunc"
+        return False
 
     def _flag_related(self, v, depth=0):
         m = self._m
@@ -173,6 +194,8 @@ class PathStates:
                 # the flag holds the truth of an earlier test: branching on the flag establishes that test's facts on this path
                 truth = ((f[0] == "ne") == (c == 0)) != r[2]
                 extra |= self._labels(self.F.cond_facts(("v", r[1]), truth))
+            if r[0] == "val":
+                extra |= self._labels({(f[0], r[1], f[2])})
             if r[0] == "c":
                 x = r[1]
                 ok = {"eq": x == c, "ne": x != c, "ugt": x > c, "uge": x >= c, "ult": x < c, "ule": x <= c,
@@ -192,6 +215,8 @@ class PathStates:
                         new[i.id] = None
                     elif r[0] == "c":
                         new[i.id] = (True, r[1])
+                    elif r[0] == "val":
+                        new[i.id] = (False, ("val", r[1][1]))
                     else:
                         new[i.id] = (False, ("not", r[1]) if r[2] else r[1])
         if not new and not extra:
